@@ -158,3 +158,54 @@ theorem toUnitCell_real (r : Rule) : r.toUnitCell.real = unitMapN ((r.wts.map ev
   simp [Function.comp, evalR]
 
 end Darsia.Quad
+
+namespace Darsia.Quad
+open Real
+
+/-! ### polynomials in several variables, as finite sums of monomials -/
+
+/-- a polynomial in `dim` variables given by its terms `(coefficient, exponents)` -/
+def polyEval (terms : List (ℝ × List ℕ)) (p : List ℝ) : ℝ := (terms.map fun t => t.1 * monoEval t.2 p).sum
+
+/-- exactness for monomials extends to every polynomial whose terms have per-variable degree `≤ m`:
+the rule returns the term-wise integral `Σ c · Π I(e_j)` -/
+theorem list_sum_map_add {α : Type} (l : List α) (f g : α → ℝ) :
+    (l.map fun a => f a + g a).sum = (l.map f).sum + (l.map g).sum := by
+  induction l with
+  | nil => simp
+  | cons a l ih => simp only [List.map_cons, List.sum_cons]; rw [ih]; ring
+
+theorem exact_polyN {t : List (List ℝ × ℝ)} {dim m : ℕ} {I : ℕ → ℝ} (h : ExactOn t dim m I)
+    (terms : List (ℝ × List ℕ)) (hterms : ∀ c ∈ terms, c.2.length = dim ∧ ∀ e ∈ c.2, e ≤ m) :
+    (t.map fun pw => pw.2 * polyEval terms pw.1).sum = (terms.map fun c => c.1 * (c.2.map I).prod).sum := by
+  induction terms with
+  | nil => simp [polyEval]
+  | cons c cs ih =>
+    have hc := hterms c (by simp)
+    have ih' := ih (fun c' hc' => hterms c' (by simp [hc']))
+    have hsplit : ∀ pw : List ℝ × ℝ, pw.2 * polyEval (c :: cs) pw.1
+        = c.1 * (pw.2 * monoEval c.2 pw.1) + pw.2 * polyEval cs pw.1 := by
+      intro pw; simp only [polyEval, List.map_cons, List.sum_cons]; ring
+    simp only [hsplit, List.map_cons, List.sum_cons]
+    rw [list_sum_map_add, list_sum_map_mul_left, ih']
+    congr 1
+    have := h c.2 hc.1 hc.2
+    simp only [momN] at this
+    rw [this]
+
+/-- in two variables the product of the 1-D integrals is the iterated integral of the monomial -/
+theorem iterated_integral_2d (a b : ℝ) (i j : ℕ) :
+    ∫ x in a..b, ∫ y in a..b, x ^ i * y ^ j = (∫ x in a..b, x ^ i) * ∫ y in a..b, y ^ j := by
+  simp_rw [intervalIntegral.integral_const_mul]
+  rw [intervalIntegral.integral_mul_const]
+
+/-- … and in three variables -/
+theorem iterated_integral_3d (a b : ℝ) (i j k : ℕ) :
+    ∫ x in a..b, ∫ y in a..b, ∫ z in a..b, x ^ i * y ^ j * z ^ k
+      = (∫ x in a..b, x ^ i) * ((∫ y in a..b, y ^ j) * ∫ z in a..b, z ^ k) := by
+  simp_rw [intervalIntegral.integral_const_mul]
+  simp_rw [intervalIntegral.integral_mul_const, intervalIntegral.integral_const_mul]
+  rw [intervalIntegral.integral_mul_const]
+  ring
+
+end Darsia.Quad
